@@ -63,6 +63,8 @@ fn parse_f64(s: &str) -> f64 {
 fn fmt_f64(x: f64) -> String {
     if x.is_nan() {
         "nan".into()
+    } else if x.is_infinite() {
+        if x > 0.0 { "inf".into() } else { "-inf".into() }
     } else {
         fmt_dec(Decimal::from_f64_retain(x).expect("finite f64"))
     }
@@ -371,9 +373,64 @@ fn near(rng: &mut Rng, x: &str) -> String {
 fn f64_tok(rng: &mut Rng) -> String {
     if rng.chance(20) {
         "nan".into()
+    } else if rng.chance(15) {
+        rng.pick(&["inf", "-inf", "-0.0"]).to_string()
     } else {
         // multiples of 1/4: exact in binary and in decimal
         dec_str(rng.range(-12, 12) * 25, 2)
+    }
+}
+
+/// Mantissas at the edge of the 96-bit range and around the powers of two at which `rust_decimal`'s
+/// multiplication switches paths (32 / 64 bits), plus the small odd ones that make exact ties.
+const EDGE_MANT: &[u128] = &[
+    79228162514264337593543950335, // 2^96 - 1
+    79228162514264337593543950334,
+    39614081257132168796771975168, // 2^95
+    39614081257132168796771975167,
+    7922816251426433759354395033,  // floor(MAX / 10)
+    7922816251426433759354395034,
+    26409387504754779197847983445, // MAX / 3
+    10000000000000000000000000000, // 1e28
+    9999999999999999999999999999,
+    18446744073709551616,          // 2^64
+    18446744073709551615,
+    4294967296,                    // 2^32
+    4294967295,
+    1, 2, 3, 5, 15, 25, 35, 45, 631, 11447,
+];
+
+/// A `Decimal` anywhere in its range: mantissa up to 96 bits (edge pool, few digits, or uniformly
+/// random), any scale 0..=28 (biased to 0, 1, 14, 27, 28), either sign — products of two of these
+/// round, underflow to zero and overflow after rounding.
+fn edge_dec(rng: &mut Rng) -> String {
+    let m: u128 = match rng.below(10) {
+        0 | 1 | 2 => *rng.pick(EDGE_MANT),
+        3 | 4 | 5 => {
+            let digits = rng.range(1, 28) as u32;
+            (((rng.next_u64() as u128) << 64) | rng.next_u64() as u128) % 10u128.pow(digits)
+        }
+        _ => (((rng.next_u64() as u128) << 64) | rng.next_u64() as u128) % (1u128 << 96),
+    };
+    let scale = match rng.below(8) {
+        0 | 1 => 0,
+        2 => 1,
+        3 => 28,
+        4 => *rng.pick(&[14u32, 15, 27]),
+        _ => rng.range(0, 28) as u32,
+    };
+    let d = Decimal::from_parts(m as u32, (m >> 32) as u32, (m >> 64) as u32, rng.chance(15), scale);
+    d.to_string()
+}
+
+/// mostly edge-of-range decimals, sometimes a small one (so that one factor is harmless)
+fn edge_or_small(rng: &mut Rng) -> String {
+    if rng.chance(65) {
+        edge_dec(rng)
+    } else if rng.chance(50) {
+        small(rng)
+    } else {
+        rng.pick(&["1", "2", "10", "0.5", "0.1", "3"]).to_string()
     }
 }
 
@@ -450,7 +507,10 @@ fn random_op(rng: &mut Rng, thorough: bool) -> String {
         }
         3 => format!("chk f64 {} {}", f64_tok(rng), f64_tok(rng)),
         4 | 5 => {
-            if rng.chance(25) {
+            if rng.chance(15) {
+                // the whole `Decimal` range: rounding, underflow to zero, overflow after rounding
+                format!("notional {} {} {}", edge_or_small(rng), edge_or_small(rng), edge_or_small(rng))
+            } else if rng.chance(25) {
                 if rng.chance(50) {
                     format!("notional {} {} {}", huge_or_small_int(rng), huge_or_small_int(rng), huge_or_small_int(rng))
                 } else {
@@ -485,7 +545,9 @@ fn random_op(rng: &mut Rng, thorough: bool) -> String {
             }
         }
         10 | 11 => {
-            if rng.chance(20) {
+            if rng.chance(15) {
+                format!("delta {} {} {} {}", edge_or_small(rng), edge_or_small(rng), side(rng), edge_or_small(rng))
+            } else if rng.chance(20) {
                 format!("delta {} {} {} {}", huge_or_small_int(rng), huge_or_small_int(rng), side(rng), huge_or_small_int(rng))
             } else {
                 let d = if rng.chance(50) {
@@ -518,11 +580,23 @@ fn generate(seed: u64, n_cases: usize, tier: &str) {
         "chk dec 50 50", "chk dec 50 50.01", "chk dec 50 49.99", "chk dec 0.1 0.10", "chk dec -1 -1", "chk dec 0 -0",
         "chk int 3 3", "chk int 3 4", "chk int 3 2", "chk int -1 0",
         "chk f64 1.5 1.5", "chk f64 1.5 1.75", "chk f64 nan 1", "chk f64 1 nan", "chk f64 nan nan",
+        "chk f64 inf inf", "chk f64 inf 1", "chk f64 1 inf", "chk f64 -inf 1", "chk f64 1 -inf", "chk f64 -inf -inf",
+        "chk f64 inf nan", "chk f64 nan -inf", "chk f64 -inf inf", "chk f64 -0.0 0", "chk f64 0 -0.0", "chk f64 -0.0 0.25",
         "apd 105 100", "apd 95 100", "apd 100 100", "apd 100 0", "apd 0 0", "apd 1 -1", "apd -105 -100", "apd 0 100",
         "notional 2 100.5 1", "notional 2 100.5 0.01", "notional 0 100 1", "notional -2 100 1",
         "notional 1000000000000000 1000000000000000 0.0000000001",
         "notional 39614081257132168796771975168 2 1", "notional 39614081257132168796771975167 2 1",
         "notional 79228162514264337593543950335 1 1", "notional 79228162514264337593543950335 1 2",
+        // rounding of `rust_decimal`'s multiplication: round-then-overflow, underflow to zero, rounding into
+        // range, ties to even
+        "notional 79228162514264337593543950335 0.5 2",
+        "notional 0.0000000000000000000000000001 0.0000000000000000000000000001 1",
+        "notional 631 125559687027360281447771712.1 1", "notional 11447 6921303617914242822883196.5 1",
+        "notional 7922816251426433759354395033.5 3 1", "notional 0.0000000000000000000000000003 0.5 1",
+        "notional 1.1111111111111111111111111111 1.1111111111111111111111111111 1",
+        "delta 1 0.0000000000000000000000000001 B 0.0000000000000000000000000001",
+        "delta 0.3333333333333333333333333333 3 S 0.3333333333333333333333333333",
+        "delta 79228162514264337593543950335 1 B 1.0000000000000000000000000001",
         "notionalk spot 5 2 100", "notionalk perp 5 2 100", "notionalk fut 0.01 2 100", "notionalk opt 100 2 100",
         "delta 1 1 B 2", "delta 1 1 S 2", "delta 0.5 100 B 3", "delta -0.5 100 B 3", "delta -0.5 100 S 3", "delta 1 1 S 0",
         "delta 2 79228162514264337593543950335 B 1", "delta 1 79228162514264337593543950335 B 2",
@@ -542,7 +616,7 @@ fn generate(seed: u64, n_cases: usize, tier: &str) {
                 out.line(format!("apd {l} {i}"));
             }
         }
-        let f = ["nan", "-1", "0", "0.25", "1"];
+        let f = ["nan", "-inf", "-1", "-0.0", "0", "0.25", "1", "inf"];
         id += 1;
         out.case(format!("x{id}"));
         for l in f {
@@ -561,12 +635,7 @@ fn generate(seed: u64, n_cases: usize, tier: &str) {
             out.case(format!("x{id}"));
             for p in g3 {
                 for c in g3 {
-                    // exact products only: a fractional factor never meets a 29-digit one
-                    let frac = [q, p, c].iter().any(|s| s.contains('.'));
-                    let big = [q, p, c].iter().any(|s| s.len() > 20);
-                    if frac && big {
-                        continue;
-                    }
+                    // fractional factors meet 29-digit ones: 0.5 x (2^96-1) rounds (the model rounds too)
                     out.line(format!("notional {q} {p} {c}"));
                     for sd in ["B", "S"] {
                         out.line(format!("delta {q} {p} {sd} {c}"));
